@@ -44,7 +44,8 @@ T_ENG = "both engines are verified to refine EngineSpec (contracts/engine_spec.p
 T_VIEW = "the element layer is verified against the ghost view of Network lookups (contracts/ghost.py). What origins, origins_by_node, destinations, destinations_by_node, nodes_by_link and elements return is proved from their real bodies on a symbolic graph (contracts/views_content_tasks.py: present iff such a node/edge exists, with that value; uses validity condition (1)); the per-node views in_links(n)/out_links(n) are verified to ask networkx for the edges at n with data='link' - that networkx then lists exactly the edges entering/leaving n is the assumed library contract; identifying the ghost functions with these results is a hand step"
 
 T_FUN = "casadi.Function: raises unless its inputs are stacks of distinct symbols and no output symbol is free; calling it substitutes arguments for input symbols (assumed contract, pyvc/libmodels/casadi_model.py)"
-T_SPINE = "layout functions are executed on five fixed element lists (spines, 2-8 elements covering every class, repeated classes and both orders) with symbolic segment counts and symbols: bounded in the number of elements"
+T_SPINE = "only on five fixed element lists (spines, 3-8 elements; reported as obligations on bounded input families): the order of the per-name groups at compact >= 1 (order of first occurrence) and the acceptance test of casadi.Function itself (inputs purely symbolic and distinct, no free symbol)"
+T_LAYOUT = "layout for any number of elements (contracts/layout_tasks.py): loops over elements are not unrolled - their bodies are summarised at a generic element of every class and their effect on the lists/dicts they fill is the corresponding segment (pyvc/abscoll.py: list append / group-by idioms only, anything else is undecided); elements are pairwise distinct and all initialised and stepped (the readiness scan is proved separately)"
 T_NX = "networkx.DiGraph and its views at region granularity (pyvc/libmodels/nx_graph.py): what each call reads/writes, views are live, edge iteration order = node order then successor order"
 
 PROPS = {
@@ -55,9 +56,9 @@ PROPS = {
         "assumptions": ["KF1 (known finding): the guarded mainstream-origin flow differs from Hegyi 3.3.3 for 0 < v_lim/v_free < 0.05"],
     },
     "C02": {"level": "proof", "explanation": "node balance (induction over the leaving links) and link telescoping (induction over the segments) as lemmas over the postconditions proved for C01, discharged by z3; the network-wide sum is the Lean lemma network_balance", "trusted_base": [T_VIEW, "hand transcription of the two postconditions into the hypotheses of lemmas/Metanet.lean:network_balance"]},
-    "C03": {"level": "other", "explanation": "lemma over contracts: (i) both engines refine EngineSpec for every primitive (proved), (ii) the element layer is verified against EngineSpec only (proved), (iii) to_function outputs the elements' next_states and takes exactly their symbols as inputs (layout obligations on bounded spines), (iv) calling a casadi.Function substitutes arguments (assumed). SX and MX share every contract except _filter_vars (both branches verified).", "trusted_base": [T_VIEW, T_FUN, T_SPINE]},
-    "C04": {"level": "other", "explanation": "layout of arguments/results (names, order, stacking per compactness level, parameters last, result k = successor of state argument k, no free symbol) checked by executing to_function, its helpers and Network.elements/states/... symbolically against the layout written from the property statement; element enumeration order links-origins-destinations", "trusted_base": [T_FUN, T_SPINE]},
-    "C05": {"level": "other", "explanation": "extra outputs are Link.get_flow of every link and origin.get_flow(net, engine, **parameters, **other_parameters) of every origin, in enumeration order - the same calls (same contract term) the queue update and the node inflow use; Link.get_flow = rho*v*lanes and the step_dynamics postconditions are proved", "trusted_base": [T_VIEW, T_FUN, T_SPINE]},
+    "C03": {"level": "proof", "explanation": "lemma over contracts: (i) both engines refine EngineSpec for every primitive (proved), (ii) the element layer is verified against EngineSpec only (proved), (iii) to_function outputs the elements' next_states and takes exactly their symbols as inputs, for any number of elements (layout obligations at a generic element of every class), (iv) calling a casadi.Function substitutes arguments (assumed). SX and MX share every contract except _filter_vars (both branches verified).", "trusted_base": [T_VIEW, T_FUN, T_LAYOUT, T_SPINE, "floating point treated as real arithmetic"]},
+    "C04": {"level": "proof", "explanation": "layout of arguments/results proved for a network with a symbolic number of links, origins and destinations of symbolic class by executing to_function, its helpers and Network.elements/states/... against the layout written from the property statement: per group and category one run over the elements in enumeration order (links, origins, destinations), every element contributing exactly its declared variables, named <key>_<name>, bound to its own symbols; results = next states in the same element/key order (+), of the size of their states; compact 1 = per-name stacks over the carriers, compact 2 = stacks of those; parameters last in declaration order. In addition five concrete spines are executed (exact order of the per-name groups, casadi.Function acceptance)", "trusted_base": [T_FUN, T_LAYOUT, T_SPINE]},
+    "C05": {"level": "proof", "explanation": "extra outputs are, for any number of elements, Link.get_flow(engine) of every link then origin.get_flow(net, engine, **parameters, **other_parameters) of every origin, in enumeration order (per-element, stacked, or stacked together according to compact) - the same calls (same contract term) the queue update and the node inflow use; Link.get_flow = rho*v*lanes and the step_dynamics postconditions are proved", "trusted_base": [T_VIEW, T_FUN, T_LAYOUT, T_SPINE]},
     "C06": {"level": "proof", "explanation": "is_valid is executed as a whole on a graph with a symbolic number of nodes, edges and attachments (not assumed valid). Loops are not unrolled: each body is summarised at a generic index (all paths) and the loop's effect is stated by a rule - msgs non-empty afterwards iff some iteration reports (witness / universal fact), with raises=True the loop raises iff some iteration raises, and the count dict satisfies the invariant count[o] = number of earlier slots holding o (prefix sum of indicators; every write is obliged to re-establish it). Postconditions, written from the documented list: valid => none of the nine conditions is violated at any edge/node (two generic holders never hold the same object; (2)-(9) at a generic node), invalid => an explicit witness violates one of them, InvalidNetworkError exactly when invalid, invalid => a message exists. The loop bodies are in addition checked item by item (valid_tasks.py) and the whole function is exercised by the bounded stand-in", "trusted_base": [T_NX, "python dict semantics of Network.origins/destinations (a repeated key keeps its last node) and the per-node link views (verified for C08) enter as the model of what is_valid iterates over", "loop rule: the effect of a loop is derived from the summary of its body at a generic index (pyvc/summary.py); finite-sum facts: lemma:sum-membership, lemma:sum-signs (induction, discharged by z3)"]},
     "C07": {"level": "proof", "explanation": "safety half of all contracts: no exception, indices/keys/asserts, shapes (next state = state), engine primitives keep every partial operation inside its domain under their admissible precondition (both engines, all argument-shape configurations incl. the NumPy engine's own (1,) variables and exact zeros), and the element layer is proved to call them inside that precondition for every admissible state (positive parameters, non-negative states, excluding the model's own 0/0 cases)", "trusted_base": [T_VIEW, T_FUN, T_SPINE]},
     "C08": {"level": "proof", "explanation": "representation invariant: a cached lookup is either dropped by the mutator (the real invalidate_cache wrapper is interpreted) or cannot change because the graph regions it reads are disjoint from the regions the mutator writes; holds after every interleaving of mutators and reads (no bound on histories)", "trusted_base": [T_NX]},
@@ -68,8 +69,8 @@ PROPS = {
     "C13": {"level": "proof", "explanation": "use/get_current_engine verified from an arbitrary prior selection state; every call on the step path is obliged to receive the caller's engine; with an explicit engine any read of the selected engine fails a noglobal obligation", "trusted_base": [T_VIEW]},
     "C14": {"level": "proof", "explanation": "share and scaling invariance as lemmas (induction discharged by z3) over the proved postcondition of Node.get_upstream_speed_and_flow; order/name independence because the specs aggregate over link sets and names are opaque tokens that cannot enter arithmetic", "trusted_base": [T_VIEW, "Lean lemma sum_enum (finite sums are independent of the enumeration)"]},
     "C15": {"level": "proof", "explanation": "each of the 17 primitives x 2 engines is proved equal, at a generic index for symbolic lengths, to one spec value; equality of the engines follows", "trusted_base": []},
-    "C16": {"level": "other", "explanation": "strata A and B are verified with every model parameter an arbitrary real (= the denotation of a symbol under every valuation) or a 1x1 CasADi symbol, and no python-level truth test may involve a parameter that can be symbolic; parameters are appended as trailing inputs in declaration order / stacked as p (layout obligations, bounded spines, with same-named symbols declared interleaved)", "trusted_base": [T_VIEW, T_FUN, T_SPINE]},
+    "C16": {"level": "proof", "explanation": "strata A and B are verified with every model parameter an arbitrary real (= the denotation of a symbol under every valuation) or a 1x1 CasADi symbol, and no python-level truth test may involve a parameter that can be symbolic; parameters are appended as trailing inputs in declaration order / stacked as p, for any number of elements (same-named symbols declared interleaved)", "trusted_base": [T_VIEW, T_FUN, T_LAYOUT, T_SPINE]},
     "C17": {"level": "proof", "explanation": "bounds proved as lemmas over the EngineSpec values (which both engines refine); the mainstream bound uses the Lean lemma fd_max", "trusted_base": ["Lean lemma fd_max and the exp/log/rpow facts (lemmas/Metanet.lean), instantiated as SMT hypotheses"]},
     "C18": {"level": "proof", "explanation": "neutral-control identities and monotonicity proved as lemmas over the EngineSpec values; 'infinite' is 'at least every value it is compared with'", "trusted_base": ["IEEE +inf behaving like such a value is assumed (the bounded stand-in runs real np.inf)"]},
-    "C19": {"level": "other", "explanation": "readiness scan of to_function proved for a symbolic number of elements of symbolic class and initialisation status (raises RuntimeError iff some element is not ready); ElementWithVars.step stores exactly the values of this call; outputs are the current next_states and a stale next state (symbols no longer among the inputs) makes casadi.Function raise - on bounded spines", "trusted_base": [T_FUN, T_SPINE]},
+    "C19": {"level": "proof", "explanation": "readiness scan of to_function proved for a symbolic number of elements of symbolic class and initialisation status (raises RuntimeError iff some element is not ready); ElementWithVars.step stores exactly the values of this call; for any number of elements the outputs are the elements' current next_states and the inputs their current symbols; a stale next state (symbols no longer among the inputs) makes casadi.Function raise (assumed library contract, sampled on every run and exercised on the spines)", "trusted_base": [T_FUN, T_LAYOUT, T_SPINE]},
 }
